@@ -12,6 +12,7 @@ import PsutilModel.Proofs.C06Status
 import PsutilModel.Proofs.C06Ctx
 import PsutilModel.Proofs.C06Witness
 import PsutilModel.Proofs.C06Ext
+import PsutilModel.Proofs.C06Name
 import Mathlib.Tactic.NormNum
 import PsutilModel.Model.C06Gen
 deriving instance DecidableEq for Except
@@ -21,6 +22,15 @@ open Spec
 
 theorem cfg_good : cfg.Good := by
   constructor <;> decide
+
+/-- the facts about the code AROUND the parsers (`_psposix.get_terminal_map`, `_pslinux.boot_time`,
+    `Process.create_time`, the loop of `Process.threads`, the public `Process.name`) -/
+theorem xcfg_good : xcfg.Good := by
+  refine { toGoodBase := ?_, tmapChecksChr := by decide }
+  constructor <;> decide
+
+/-- the `S_ISCHR` test is in the code (fix 9df9f82) -/
+theorem cfg_tmap_checks_chr : xcfg.tmapChecksChr = true := xcfg_good.tmapChecksChr
 
 /-- The four status regexes, byte for byte, as the imported module compiled them:
     `(?m)^Uid:\t(\d+)\t(\d+)\t(\d+)`, `(?m)^Gid:…`, `(?m)^Threads:\t(\d+)`, `ctxt_switches:\t(\d+)`.
@@ -32,6 +42,20 @@ theorem cfg_status_patterns :
     ∧ Gen.C06.gidPatternSrc = [40, 63, 109, 41, 94] ++ keyGid ++ [58] ++ [92, 116, 40, 92, 100, 43, 41, 92, 116, 40, 92, 100, 43, 41, 92, 116, 40, 92, 100, 43, 41]
     ∧ Gen.C06.thrPatternSrc = [40, 63, 109, 41, 94] ++ keyThreads ++ [58] ++ [92, 116, 40, 92, 100, 43, 41]
     ∧ Gen.C06.ctxPatternSrc = ctxWord ++ [58] ++ [92, 116, 40, 92, 100, 43, 41] := by decide
+
+/-- Anchors that are not literals of the model but DEFINING EXPRESSIONS in the source, pinned by their
+    text: the tick rate is the system's (`CLOCK_TICKS = os.sysconf('SC_CLK_TCK')`, assigned exactly once
+    at module level); an entry enters the terminal map under the single condition
+    `stat.S_ISCHR(st.st_mode)` (so `… or stat.S_ISDIR(…)` breaks this); the public `name()` replaces the
+    kernel name only under `len(bname) >= 15`, a non-empty cmdline and the prefix test, by
+    `os.path.basename(cmdline[0])`; the four status regexes carry no flag besides `(?m)`. -/
+theorem cfg_source_anchors :
+    Gen.C06.clockTicksExpr = "os.sysconf('SC_CLK_TCK')"
+    ∧ Gen.C06.tmapStoreGuards = ["stat.S_ISCHR(st.st_mode)"]
+    ∧ Gen.C06.nameExtendGuards
+        = ["POSIX and len(bname) >= 15", "cmdline", "os.fsencode(extended_name).startswith(bname)"]
+    ∧ Gen.C06.nameExtendSource = "os.path.basename(cmdline[0])"
+    ∧ Gen.C06.statusRegexExtraFlags = [0, 0, 0, 0] := by decide
 
 /-! ## `/proc/<pid>/stat` -/
 
@@ -57,8 +81,10 @@ theorem C06_cpu_num_exact (r : StatRec) (hwf : r.WF) :
     cpuNum cfg (renderStat r) = .ok (Spec.cpuNum r) := by
   simp [cpuNum, C06_stat_roundtrip r hwf, bind, Except.bind, rawView, pyInt_renderDec, Spec.cpuNum]
 
-/-- `cpu_times()`: clock ticks divided by the tick rate, for every tick rate -/
-theorem C06_cpu_times_exact (tck : Nat) (r : StatRec) (hwf : r.WF) :
+/-- `cpu_times()`: clock ticks divided by the tick rate, for every tick rate > 0 (at 0 the model, like
+    the Python, raises ZeroDivisionError: `C06_zero_tick_rate_raises`). Exact RATIONALS: the doubles the
+    code computes are within the rounding bound of `C06_tick_quotient_rounding_bound` of these. -/
+theorem C06_cpu_times_exact (tck : Nat) (htck : 0 < tck) (r : StatRec) (hwf : r.WF) :
     cpuTimes cfg tck (renderStat r)
       = .ok ⟨(Spec.cpuTimes tck r).user, (Spec.cpuTimes tck r).system,
              (Spec.cpuTimes tck r).childrenUser, (Spec.cpuTimes tck r).childrenSystem,
@@ -68,29 +94,31 @@ theorem C06_cpu_times_exact (tck : Nat) (r : StatRec) (hwf : r.WF) :
   cases ht : r.tail with
   | none =>
     simp [bind, Except.bind, pure, Except.pure, rawView, pyFloat_renderDec, Spec.cpuTimes,
-      blkioTicks, ht]
+      blkioTicks, ht, pyDiv_pos _ tck htck]
   | some p =>
     obtain ⟨b, more⟩ := p
     simp [bind, Except.bind, pure, Except.pure, rawView, pyFloat_renderDec, Spec.cpuTimes,
-      blkioTicks, ht]
+      blkioTicks, ht, pyDiv_pos _ tck htck]
 
 /-- old kernels (record ends before `delayacct_blkio_ticks`): everything else is still exact
     and `iowait` is 0 -/
-theorem C06_old_kernel_iowait_zero (tck : Nat) (r : StatRec) (hwf : r.WF) (hold : r.tail = none) :
+theorem C06_old_kernel_iowait_zero (tck : Nat) (htck : 0 < tck) (r : StatRec) (hwf : r.WF) (hold : r.tail = none) :
     ∃ ct, cpuTimes cfg tck (renderStat r) = .ok ct ∧ ct.iowait = 0
       ∧ ct.user = (r.utime : Rat) / tck ∧ ct.system = (r.stime : Rat) / tck := by
-  refine ⟨_, C06_cpu_times_exact tck r hwf, ?_, rfl, rfl⟩
+  refine ⟨_, C06_cpu_times_exact tck htck r hwf, ?_, rfl, rfl⟩
   simp [Spec.cpuTimes, blkioTicks, hold, Rat.div_def]
 
 /-- `create_time()`: start time in ticks over the tick rate, offset by the boot time -/
-theorem C06_create_time_exact (tck : Nat) (btime : Rat) (r : StatRec) (hwf : r.WF) :
+theorem C06_create_time_exact (tck : Nat) (htck : 0 < tck) (btime : Rat) (r : StatRec) (hwf : r.WF) :
     createTime cfg tck btime (renderStat r) = .ok (Spec.createTime tck btime r) := by
   unfold createTime
   rw [C06_stat_roundtrip r hwf]
   simp [bind, Except.bind, pure, Except.pure, rawView, pyFloat_renderDec, Spec.createTime,
-    Rat.add_comm]
+    Rat.add_comm, pyDiv_pos _ tck htck]
 
-/-- `terminal()`: the tty number looked up in the device map -/
+/-- `terminal()` given the device map as a PARAMETER: only the parse of the tty_nr column is content
+    here (model and specification look the number up in the same list); the statement about the map
+    itself — what `get_terminal_map()` makes of /dev — is `C06_terminal_map_exact_code`. -/
 theorem C06_terminal_exact (tmap : List (Int × Bytes)) (r : StatRec) (hwf : r.WF) :
     terminal cfg tmap (renderStat r) = .ok (Spec.terminal tmap r) := by
   unfold terminal
@@ -125,21 +153,95 @@ theorem C06_status_exact (r : StatRec) (hwf : r.WF) :
   simp [Except.map, rawView, hlt, lookupStatus, C06_status_letter_map, hl, Spec.status]
   rfl
 
+/-- The tick theorems carry `0 < tck` because they NEED it: with a tick rate of 0 every one of these
+    getters raises ZeroDivisionError (as `float / 0` does in Python), it does not return 0. -/
+theorem C06_zero_tick_rate_raises (r : StatRec) (hwf : r.WF) (b : Rat) :
+    cpuTimes cfg 0 (renderStat r) = .error .zeroDivisionError
+    ∧ createTime cfg 0 b (renderStat r) = .error .zeroDivisionError
+    ∧ threads cfg 0 [(r.pid, renderStat r)] = .error .zeroDivisionError := by
+  refine ⟨?_, ?_, ?_⟩
+  · unfold cpuTimes
+    rw [C06_stat_roundtrip r hwf]
+    simp [bind, Except.bind, rawView, pyFloat_renderDec, pyDiv]
+  · unfold createTime
+    rw [C06_stat_roundtrip r hwf]
+    simp [bind, Except.bind, rawView, pyFloat_renderDec, pyDiv]
+  · unfold threads threadOne threadValues
+    simp only [stripWs_renderStat r hwf, cfg_good.threadsUsesRfind, if_true, thread_values cfg cfg_good r hwf,
+      cfg_good.tUtime, cfg_good.tStime]
+    simp [statTokens, getField, bind, Except.bind, pyFloat_renderDec, pyDiv]
+
+/-- FLOATS. The theorems above are about exact rationals; the code computes IEEE doubles:
+    `float(token) / CLOCK_TICKS` = two correctly rounded operations (the conversion of the decimal
+    token, relative error δ₁, and the division, δ₂). For ANY unit round-off `u` bounding both
+    (binary64: `u = 2^-53`) the computed quotient is within `(2u + u²)` RELATIVE of the exact
+    `ticks / tck` — e.g. 3.85 s at 2^64-1 ticks / 100, which is 2.1e-17 relative. The
+    correspondence check uses exactly this bound (not a looser tolerance); that CPython's `float()`
+    and `/` are correctly rounded is the explicit assumption. -/
+theorem C06_tick_quotient_rounding_bound (ticks tck : Nat) (u d1 d2 : Rat) (h1 : |d1| ≤ u) (h2 : |d2| ≤ u) :
+    |(ticks : Rat) * (1 + d1) / tck * (1 + d2) - (ticks : Rat) / tck|
+      ≤ (2 * u + u * u) * ((ticks : Rat) / tck) :=
+  tick_quotient_rounding ticks tck u d1 d2 h1 h2
+
+/-- … and `create_time()` = `fl(fl(fl(start) / tck) + bt)`, `bt` a whole number of seconds below 2^53
+    (exactly representable): three roundings, within `3u + 3u² + u³` relative of `start / tck + bt`. -/
+theorem C06_create_time_rounding_bound (start tck : Nat) (b u d1 d2 d3 : Rat) (hb : 0 ≤ b)
+    (h1 : |d1| ≤ u) (h2 : |d2| ≤ u) (h3 : |d3| ≤ u) :
+    |((start : Rat) * (1 + d1) / tck * (1 + d2) + b) * (1 + d3) - Spec.createTime tck b ⟨0, [], 83, 0, 0, 0, 0, 0, 0, 0, 0, 0, 0, 0, 0, 0, 0, 0, 0, 0, 0, start, 0, 0, 0, 0, 0, 0, 0, 0, 0, 0, 0, 0, 0, 0, 0, 0, 0, 0, 0, none⟩|
+      ≤ (3 * u + 3 * (u * u) + u * u * u) * ((start : Rat) / tck + b) := by
+  have h := create_time_rounding start tck b u d1 d2 d3 hb h1 h2 h3
+  simpa [Spec.createTime, add_comm] using h
+
+/-! ## the public `Process.name()` -/
+
+/-- The public `name()` on top of the platform `name()`: for every comm and every `argv[0]`
+    (`none` = empty cmdline, AccessDenied or ZombieProcess from `cmdline()`) the result is the
+    documented one — the comm itself, except that a 15-byte (possibly truncated) comm is replaced by
+    the last path component of `argv[0]` when that component starts with it. The cmdline FILE is
+    parsed by `cmdline()`, which belongs to C12; here `argv[0]` is given. -/
+theorem C06_public_name_exact (r : StatRec) (hwf : r.WF) (arg0 : Option ExePath)
+    (hp : ∀ p, arg0 = some p → p.WF) :
+    (name cfg (renderStat r)).map (fun n => publicName xcfg n (arg0.map ExePath.render))
+      = .ok (Spec.publicName r.comm arg0) := by
+  rw [C06_name_exact r hwf]
+  simp [Except.map, Spec.name, publicName_spec xcfg xcfg_good.toGoodBase r.comm arg0 hp]
+
+/-- the kernel-name clause at the public level: a comm shorter than 15 bytes is returned byte for byte
+    WHATEVER the command line is (any bytes as `argv[0]`, no well-formedness needed) -/
+theorem C06_public_name_short_is_comm (r : StatRec) (hwf : r.WF) (hlen : r.comm.length < 15)
+    (arg0 : Option Bytes) :
+    (name cfg (renderStat r)).map (fun n => publicName xcfg n arg0) = .ok r.comm := by
+  rw [C06_name_exact r hwf]
+  have : ¬ (xcfg.nameExtendMin ≤ r.comm.length) := by
+    rw [xcfg_good.nameExtendMin]; simp [commMax]; omega
+  simp [Except.map, Spec.name, publicName, this]
+
+/-- … and in every case the kernel name is a prefix of what the public `name()` returns -/
+theorem C06_public_name_extends_comm (comm : Bytes) (arg0 : Option ExePath) :
+    comm <+: Spec.publicName comm arg0 := by
+  unfold Spec.publicName
+  cases arg0 with
+  | none => exact List.prefix_refl _
+  | some p =>
+    by_cases h : commMax ≤ comm.length ∧ comm <+: p.base
+    · simp [h]
+    · simp [h]
+
 /-! ## `threads()` -/
 
 /-- Full statement: every thread's record is read exactly, whatever each thread's name. -/
 def ThreadsExact (c : Cfg) : Prop :=
-  ∀ (tck : Nat) (recs : List StatRec), (∀ r ∈ recs, r.WF) →
+  ∀ (tck : Nat), 0 < tck → ∀ (recs : List StatRec), (∀ r ∈ recs, r.WF) →
     threads c tck (recs.map fun r => (r.pid, renderStat r))
       = .ok (recs.map fun r => ⟨r.pid, (r.utime : Rat) / tck, (r.stime : Rat) / tck⟩)
 
 theorem threads_exact_of_good (c : Cfg) (hg : c.Good) : ThreadsExact c := by
-  intro tck recs hwf
+  intro tck htck recs hwf
   induction recs with
   | nil => rfl
   | cons r rs ih =>
     have ih' := ih (fun x hx => hwf x (by simp [hx]))
-    simp only [List.map_cons, threads, threadOne_render c hg tck r (hwf r (by simp)), ih']
+    simp only [List.map_cons, threads, threadOne_render c hg tck htck r (hwf r (by simp)), ih']
     rfl
 
 /-- `threads()` for any number of threads, each with its own arbitrary name -/
@@ -171,12 +273,12 @@ theorem witnessThread_misread :
     instead of 3.0 / 4.0: the full statement is false of that code. -/
 theorem C06_threads_first_paren_counterexample : ¬ ThreadsExact cfgThreadsFind := by
   intro h
-  have h1 := h 100 [witnessThread] (by intro r hr; simp at hr; subst hr; exact witnessThread_wf)
+  have h1 := h 100 (by decide) [witnessThread] (by intro r hr; simp at hr; subst hr; exact witnessThread_wf)
   have p0 : pyInt [48] = .ok 0 := by decide
   have p300 : pyInt [51, 48, 48] = .ok 300 := by decide
   simp only [List.map_cons, List.map_nil, threads, threadOne, witnessThread_misread.1,
     witnessThread_misread.2, pyFloat, p0, p300, bind, Except.bind, pure, Except.pure,
-    Except.map, Except.ok.injEq, List.cons.injEq, ThreadOut.mk.injEq] at h1
+    Except.map, pyDiv_pos _ 100 (by decide), Except.ok.injEq, List.cons.injEq, ThreadOut.mk.injEq] at h1
   have h2 := h1.1.2.1
   simp only [witnessThread] at h2
   norm_num at h2
@@ -200,7 +302,7 @@ theorem C06_status_extract : UidsExact cfg ∧ GidsExact cfg ∧ NumThreadsExact
 /-- `num_ctx_switches()`: the unanchored `ctxt_switches:\t(\d+)` finds exactly the voluntary and
     the nonvoluntary line, because `ctxt_switches:\t<digit>` (16 bytes, no backslash) fits in no
     name of at most 15 bytes, however the kernel escapes it. -/
-theorem C06_ctx_switches_extract (r : StatusRec) (_hwf : r.WF) (hctx : r.WFCtx) :
+theorem C06_ctx_switches_extract (r : StatusRec) (hctx : r.WFCtx) :
     numCtxSwitches cfg (renderStatus r) = .ok (Spec.numCtxSwitches r) :=
   numCtxSwitches_extract cfg cfg_good r hctx
 
@@ -256,12 +358,6 @@ theorem C06_text_mode_counterexample : ¬ UidsExact cfgTextMode := by
   `xcfg` is built from translator facts about `_psposix.get_terminal_map`, `_pslinux.boot_time`,
   `Process.create_time` and the loop of `Process.threads`. -/
 
-theorem xcfg_good : xcfg.Good := by
-  refine { toGoodBase := ?_, tmapChecksChr := by decide }
-  constructor <;> decide
-
-/-- the `S_ISCHR` test is in the code (fix 9df9f82) -/
-theorem cfg_tmap_checks_chr : xcfg.tmapChecksChr = true := xcfg_good.tmapChecksChr
 
 /-! ## `terminal()` through the real `get_terminal_map()` -/
 
@@ -289,9 +385,10 @@ def TerminalMapExact_Full (x : XCfg) : Prop :=
 
 /-- `terminal()` over an abstract /dev: whatever the globs list (any order, entries that vanish
     before `os.stat`, several names for one device), the result is the path of a character device
-    whose number is the record's tty_nr, and `None` iff there is none. Holds for the current code
-    when every matched path is a device node (`AllDevices`), and without that hypothesis for a
-    `get_terminal_map` that tests `S_ISCHR`. -/
+    whose number is the record's tty_nr, and `None` iff there is none. Stated with the disjunctive
+    hypothesis so that it also covers the configuration before 9df9f82 (no `S_ISCHR` test: then every
+    matched path must be a device node, `AllDevices`); for the code as it is the left disjunct is a
+    fact (`cfg_tmap_checks_chr`) and `C06_terminal_map_exact_code` has no hypothesis on /dev. -/
 theorem C06_terminal_map_exact (listing : List (Bytes × NodeKind)) (r : StatRec) (hwf : r.WF)
     (hdev : xcfg.tmapChecksChr = true ∨ AllDevices listing) :
     ∃ out c, terminalCall cfg xcfg none (osView listing) (renderStat r) = (.ok out, c)
@@ -412,52 +509,132 @@ theorem C06_boot_time_exact (w : ProcStatW) (hwf : w.WF) :
 /-- End to end: from the text of /proc/stat and of /proc/<pid>/stat, with no boot time cached yet,
     `create_time()` is `btime + starttime / CLK_TCK` as an exact rational, and BOOT_TIME is then
     pinned to that btime. -/
-theorem C06_create_time_end_to_end (tck : Nat) (w : ProcStatW) (hw : w.WF) (r : StatRec) (hwf : r.WF) :
+theorem C06_create_time_end_to_end (tck : Nat) (htck : 0 < tck) (w : ProcStatW) (hw : w.WF) (r : StatRec) (hwf : r.WF) :
     createTimeCall cfg xcfg tck none (renderProcStat w) (renderStat r)
       = (.ok (Spec.createTime tck (w.btime : Rat) r), some (w.btime : Rat)) := by
   unfold createTimeCall bootTimeCall
   rw [C06_stat_roundtrip r hwf, C06_boot_time_exact w hw]
-  simp [bind, Except.bind, rawView, pyFloat_renderDec, Spec.createTime, Rat.add_comm]
+  simp [bind, Except.bind, rawView, pyFloat_renderDec, Spec.createTime, Rat.add_comm, pyDiv_pos _ tck htck,
+    Except.map]
 
 /-- Once BOOT_TIME is pinned (≠ 0), `create_time()` uses it and does not look at /proc/stat at all:
     whatever that file contains now (a stepped clock, garbage), the result is the pinned boot
     time plus `starttime / CLK_TCK`, and the pin stays. -/
-theorem C06_create_time_uses_pinned_boot_time (tck : Nat) (b : Rat) (hb : b ≠ 0) (procStatNow : Bytes)
+theorem C06_create_time_uses_pinned_boot_time (tck : Nat) (htck : 0 < tck) (b : Rat) (hb : b ≠ 0) (procStatNow : Bytes)
     (r : StatRec) (hwf : r.WF) :
     createTimeCall cfg xcfg tck (some b) procStatNow (renderStat r)
       = (.ok (Spec.createTime tck b r), some b) := by
   unfold createTimeCall
   rw [C06_stat_roundtrip r hwf]
   simp [bind, Except.bind, rawView, pyFloat_renderDec, Spec.createTime, Rat.add_comm,
-    xcfg_good.createUsesCachedBoot, hb]
+    xcfg_good.createUsesCachedBoot, hb, pyDiv_pos _ tck htck, Except.map]
 
 /-- A pinned BOOT_TIME of 0.0 is falsy in `BOOT_TIME or boot_time()`: /proc/stat IS read again and
     the btime it holds NOW is used; the pin stays 0.0 (`boot_time()` only pins when it is None). -/
-theorem C06_create_time_zero_boot_time_rereads (tck : Nat) (w : ProcStatW) (hw : w.WF) (r : StatRec)
+theorem C06_create_time_zero_boot_time_rereads (tck : Nat) (htck : 0 < tck) (w : ProcStatW) (hw : w.WF) (r : StatRec)
     (hwf : r.WF) :
     createTimeCall cfg xcfg tck (some 0) (renderProcStat w) (renderStat r)
       = (.ok (Spec.createTime tck (w.btime : Rat) r), some 0) := by
   unfold createTimeCall bootTimeCall
   rw [C06_stat_roundtrip r hwf, C06_boot_time_exact w hw]
   simp [bind, Except.bind, rawView, pyFloat_renderDec, Spec.createTime, Rat.add_comm,
-    xcfg_good.createUsesCachedBoot]
+    xcfg_good.createUsesCachedBoot, pyDiv_pos _ tck htck, Except.map]
 
 /-- HISTORY of two `create_time()` calls in one interpreter (any two processes, /proc/stat
     possibly rewritten in between — a stepped clock): the second call adds the btime the FIRST call
     read, except when that was 0, in which case it adds the btime published at its own moment. -/
-theorem C06_create_time_two_calls (tck : Nat) (w1 w2 : ProcStatW) (hw1 : w1.WF) (hw2 : w2.WF)
+theorem C06_create_time_two_calls (tck : Nat) (htck : 0 < tck) (w1 w2 : ProcStatW) (hw1 : w1.WF) (hw2 : w2.WF)
     (r1 r2 : StatRec) (h1 : r1.WF) (h2 : r2.WF) :
     createTimeCall cfg xcfg tck
         (createTimeCall cfg xcfg tck none (renderProcStat w1) (renderStat r1)).2
         (renderProcStat w2) (renderStat r2)
       = (.ok (Spec.createTime tck (((if w1.btime = 0 then w2.btime else w1.btime) : Nat) : Rat) r2),
          some (w1.btime : Rat)) := by
-  rw [C06_create_time_end_to_end tck w1 hw1 r1 h1]
+  rw [C06_create_time_end_to_end tck htck w1 hw1 r1 h1]
   by_cases hz : w1.btime = 0
   · simp only [hz, if_true, Nat.cast_zero]
-    exact C06_create_time_zero_boot_time_rereads tck w2 hw2 r2 h2
+    exact C06_create_time_zero_boot_time_rereads tck htck w2 hw2 r2 h2
   · simp only [hz, if_false]
-    exact C06_create_time_uses_pinned_boot_time tck _ (by exact_mod_cast hz) _ r2 h2
+    exact C06_create_time_uses_pinned_boot_time tck htck _ (by exact_mod_cast hz) _ r2 h2
+
+/-! ### histories of any length, `create_time()` and the public `boot_time()` interleaved -/
+
+/-- one call that touches the BOOT_TIME pin, together with the world it runs in -/
+inductive TimeOp
+  | create (w : ProcStatW) (r : StatRec)   -- `Process(pid).create_time()` while /proc/stat reads `w`
+  | boot (w : ProcStatW)                   -- `psutil.boot_time()` while /proc/stat reads `w`
+
+def TimeOp.WF : TimeOp → Prop
+  | .create w r => w.WF ∧ r.WF
+  | .boot w => w.WF
+
+def TimeOp.world : TimeOp → ProcStatW
+  | .create w _ => w
+  | .boot w => w
+
+def runTimeOp (tck : Nat) (cache : Option Rat) : TimeOp → Res Rat × Option Rat
+  | .create w r => createTimeCall cfg xcfg tck cache (renderProcStat w) (renderStat r)
+  | .boot w => bootTimeCall xcfg cache (renderProcStat w)
+
+/-- the calls of one interpreter, in order, threading the BOOT_TIME pin -/
+def runTimeOps (tck : Nat) : Option Rat → List TimeOp → List (Res Rat) × Option Rat
+  | c, [] => ([], c)
+  | c, op :: ops =>
+    ((runTimeOp tck c op).1 :: (runTimeOps tck (runTimeOp tck c op).2 ops).1,
+     (runTimeOps tck (runTimeOp tck c op).2 ops).2)
+
+/-- what each call is promised, given the btime `pin` the FIRST call of the interpreter read -/
+def TimeOp.promised (tck : Nat) (pin : Nat) : TimeOp → Rat
+  | .create w r => Spec.createTime tck (((if pin = 0 then w.btime else pin) : Nat) : Rat) r
+  | .boot w => (w.btime : Rat)
+
+theorem runTimeOps_pinned (tck : Nat) (htck : 0 < tck) (b : Nat) :
+    ∀ ops : List TimeOp, (∀ o ∈ ops, o.WF) →
+      runTimeOps tck (some (b : Rat)) ops = (ops.map fun o => .ok (o.promised tck b), some (b : Rat)) := by
+  intro ops
+  induction ops with
+  | nil => intro _; rfl
+  | cons o os ih =>
+    intro hwf
+    have ho : o.WF := hwf o (by simp)
+    have hstep : runTimeOp tck (some (b : Rat)) o = (.ok (o.promised tck b), some (b : Rat)) := by
+      cases o with
+      | create w r =>
+        by_cases hz : b = 0
+        · subst hz
+          simpa [runTimeOp, TimeOp.promised] using
+            C06_create_time_zero_boot_time_rereads tck htck w ho.1 r ho.2
+        · simpa [runTimeOp, TimeOp.promised, hz] using
+            C06_create_time_uses_pinned_boot_time tck htck (b : Rat) (by exact_mod_cast hz)
+              (renderProcStat w) r ho.2
+      | boot w =>
+        simp [runTimeOp, TimeOp.promised, bootTimeCall, C06_boot_time_exact w ho]
+    simp only [runTimeOps, hstep, ih (fun o h => hwf o (by simp [h])), List.map_cons]
+
+/-- HISTORY of ANY length, `create_time()` calls (any processes) and public `boot_time()` calls
+    interleaved, /proc/stat possibly different at every call (stepped clock): the first call of either
+    kind pins BOOT_TIME to the btime it read, for good; every `create_time()` adds that pinned btime
+    (or, if that was 0 — falsy —, the btime published at its own moment); every `boot_time()` returns
+    the btime published at its own moment (it always re-reads, and pins only when nothing is pinned). -/
+theorem C06_time_call_history (tck : Nat) (htck : 0 < tck) (op0 : TimeOp) (ops : List TimeOp)
+    (hwf : ∀ o ∈ op0 :: ops, o.WF) :
+    runTimeOps tck none (op0 :: ops)
+      = ((op0 :: ops).map fun o => .ok (o.promised tck op0.world.btime), some (op0.world.btime : Rat)) := by
+  have h0 : op0.WF := hwf op0 (by simp)
+  have hstep : ∀ b : Nat, op0.world.btime = b →
+      runTimeOp tck none op0 = (.ok (op0.promised tck b), some (b : Rat)) := by
+    intro b hb
+    cases op0 with
+    | create w r =>
+      simp only [TimeOp.world] at hb
+      subst hb
+      simp only [runTimeOp, TimeOp.promised]
+      split <;> exact C06_create_time_end_to_end tck htck w h0.1 r h0.2
+    | boot w =>
+      simp only [TimeOp.world] at hb
+      subst hb
+      simp [runTimeOp, TimeOp.promised, bootTimeCall, C06_boot_time_exact w h0]
+  simp only [runTimeOps, hstep _ rfl, runTimeOps_pinned tck htck _ ops (fun o h => hwf o (by simp [h])), List.map_cons]
 
 /-! ## `threads()`: which threads, in which order -/
 
@@ -474,17 +651,25 @@ theorem C06_threads_order (listing : List Nat) : IsNameOrder listing (sortTids x
   intro a b hab
   rw [← lexLE_eq_strLE]; exact hab
 
+/-- the same order stated without any executable comparison of ours: no two reported tids are out of
+    lexicographic order (`List.Lex` on the code points of their decimal names) -/
+theorem C06_threads_order_lex (listing : List Nat) :
+    (sortTids xcfg listing).Perm listing
+    ∧ (sortTids xcfg listing).Pairwise fun a b => ¬ List.Lex (· < ·) (renderDec b) (renderDec a) := by
+  obtain ⟨h1, h2⟩ := C06_threads_order listing
+  exact ⟨h1, h2.imp fun h => (strLE_iff_not_lex _ _).mp h⟩
+
 /-- The VALUE of `threads()`: for every listing order, every set of threads that end while the
     directory is being read (`recs t = none`), every thread name and old-kernel record: the
     result is the per-thread view of exactly the threads that could be read, in name order —
     as long as the process itself is still there at the end of the scan. -/
-theorem C06_threads_value (tck : Nat) (listing : List Nat) (recs : Nat → Option StatRec)
+theorem C06_threads_value (tck : Nat) (htck : 0 < tck) (listing : List Nat) (recs : Nat → Option StatRec)
     (hwf : ∀ t r, recs t = some r → r.WF ∧ r.pid = t) (alive : Bool)
     (hal : alive = true ∨ ∀ t ∈ listing, recs t ≠ none) :
     threadsCall cfg xcfg tck listing (fun t => fileOf (recs t)) alive
       = .ok ((Spec.threadsValue tck (sortTids xcfg listing) recs).map toOut) := by
   unfold threadsCall
-  rw [scan_render cfg cfg_good xcfg xcfg_good.threadsSkipsVanished tck recs hwf]
+  rw [scan_render cfg cfg_good xcfg xcfg_good.threadsSkipsVanished tck htck recs hwf]
   rcases hal with h | h
   · simp [h]
   · have hany : ((sortTids xcfg listing).any fun t => (recs t).isNone) = false := by
@@ -497,11 +682,11 @@ theorem C06_threads_value (tck : Nat) (listing : List Nat) (recs : Nat → Optio
     simp [hany, xcfg_good.threadsHitStartsFalse]
 
 /-- … and when a thread vanished AND the process is gone at the end: NoSuchProcess, not a partial list -/
-theorem C06_threads_gone (tck : Nat) (listing : List Nat) (recs : Nat → Option StatRec)
+theorem C06_threads_gone (tck : Nat) (htck : 0 < tck) (listing : List Nat) (recs : Nat → Option StatRec)
     (hwf : ∀ t r, recs t = some r → r.WF ∧ r.pid = t) (t : Nat) (ht : t ∈ listing) (hv : recs t = none) :
     threadsCall cfg xcfg tck listing (fun t => fileOf (recs t)) false = .error .noSuchProcess := by
   unfold threadsCall
-  rw [scan_render cfg cfg_good xcfg xcfg_good.threadsSkipsVanished tck recs hwf]
+  rw [scan_render cfg cfg_good xcfg xcfg_good.threadsSkipsVanished tck htck recs hwf]
   have hany : ((sortTids xcfg listing).any fun t => (recs t).isNone) = true := by
     rw [List.any_eq_true]
     exact ⟨t, (C06_threads_order listing).1.mem_iff.mpr ht, by simp [hv]⟩
@@ -510,13 +695,13 @@ theorem C06_threads_gone (tck : Nat) (listing : List Nat) (recs : Nat → Option
 /-- The same VALUE whatever the SIGNAL by which an ended thread shows (`sig t = false`:
     FileNotFoundError when `task/<tid>/stat` is opened; `sig t = true`: ProcessLookupError, i.e.
     ESRCH from `open` or from `read` of a file that was opened in time): both are skipped. -/
-theorem C06_threads_value_any_signal (tck : Nat) (listing : List Nat) (sig : Nat → Bool)
+theorem C06_threads_value_any_signal (tck : Nat) (htck : 0 < tck) (listing : List Nat) (sig : Nat → Bool)
     (recs : Nat → Option StatRec) (hwf : ∀ t r, recs t = some r → r.WF ∧ r.pid = t) (alive : Bool)
     (hal : alive = true ∨ ∀ t ∈ listing, recs t ≠ none) :
     threadsCall cfg xcfg tck listing (fun t => fileOfS (sig t) (recs t)) alive
       = .ok ((Spec.threadsValue tck (sortTids xcfg listing) recs).map toOut) := by
   unfold threadsCall
-  rw [scan_render_sig cfg cfg_good xcfg xcfg_good.threadsSkipsVanished xcfg_good.threadsSkipsEsrch tck sig
+  rw [scan_render_sig cfg cfg_good xcfg xcfg_good.threadsSkipsVanished xcfg_good.threadsSkipsEsrch tck htck sig
     recs hwf]
   rcases hal with h | h
   · simp [h]
@@ -530,12 +715,12 @@ theorem C06_threads_value_any_signal (tck : Nat) (listing : List Nat) (sig : Nat
     simp [hany, xcfg_good.threadsHitStartsFalse]
 
 /-- … and NoSuchProcess for either signal when the process is gone at the end -/
-theorem C06_threads_gone_any_signal (tck : Nat) (listing : List Nat) (sig : Nat → Bool)
+theorem C06_threads_gone_any_signal (tck : Nat) (htck : 0 < tck) (listing : List Nat) (sig : Nat → Bool)
     (recs : Nat → Option StatRec) (hwf : ∀ t r, recs t = some r → r.WF ∧ r.pid = t) (t : Nat)
     (ht : t ∈ listing) (hv : recs t = none) :
     threadsCall cfg xcfg tck listing (fun t => fileOfS (sig t) (recs t)) false = .error .noSuchProcess := by
   unfold threadsCall
-  rw [scan_render_sig cfg cfg_good xcfg xcfg_good.threadsSkipsVanished xcfg_good.threadsSkipsEsrch tck sig
+  rw [scan_render_sig cfg cfg_good xcfg xcfg_good.threadsSkipsVanished xcfg_good.threadsSkipsEsrch tck htck sig
     recs hwf]
   have hany : ((sortTids xcfg listing).any fun t => (recs t).isNone) = true := by
     rw [List.any_eq_true]
@@ -545,23 +730,25 @@ theorem C06_threads_gone_any_signal (tck : Nat) (listing : List Nat) (sig : Nat 
 /-- The liveness of the process is looked at ONLY after a thread vanished (`hit_enoent` starts as
     False): when every listed thread could be read, the per-thread views are returned even if the
     process is gone by the end of the scan. -/
-theorem C06_threads_liveness_checked_only_after_vanish (tck : Nat) (listing : List Nat)
+theorem C06_threads_liveness_checked_only_after_vanish (tck : Nat) (htck : 0 < tck) (listing : List Nat)
     (recs : Nat → Option StatRec) (hwf : ∀ t r, recs t = some r → r.WF ∧ r.pid = t)
     (hall : ∀ t ∈ listing, recs t ≠ none) (alive : Bool) :
     threadsCall cfg xcfg tck listing (fun t => fileOf (recs t)) alive
       = .ok ((Spec.threadsValue tck (sortTids xcfg listing) recs).map toOut) :=
-  C06_threads_value tck listing recs hwf alive (Or.inr hall)
+  C06_threads_value tck htck listing recs hwf alive (Or.inr hall)
 
-/-- old kernels: a thread record that ends at `policy` (no `delayacct_blkio_ticks` …) is read
-    exactly like a full one — `threads()` only indexes columns 11 and 12 after the name -/
-theorem C06_threads_old_kernel (tck : Nat) (r : StatRec) (hwf : r.WF) (_hold : r.tail = none) :
-    threadsCall cfg xcfg tck [r.pid] (fun _ => fileOf (some r)) true
+/-- old kernels: the same thread cut down to a record that ends at `policy` (`tail := none`: no
+    `delayacct_blkio_ticks` …) is read exactly like the full one — `threads()` only indexes columns
+    11 and 12 after the name -/
+theorem C06_threads_old_kernel (tck : Nat) (htck : 0 < tck) (r : StatRec) (hwf : r.WF) :
+    threadsCall cfg xcfg tck [r.pid] (fun _ => fileOf (some { r with tail := none })) true
       = .ok [⟨r.pid, (r.utime : Rat) / tck, (r.stime : Rat) / tck⟩] := by
-  have h := C06_threads_value tck [r.pid] (fun t => if t = r.pid then some r else none)
-    (by intro t r' h; split at h <;> simp at h; subst h; exact ⟨hwf, by simp_all⟩) true (Or.inl rfl)
+  have hwf' : ({ r with tail := none } : StatRec).WF := hwf
+  have h := C06_threads_value tck htck [r.pid] (fun t => if t = r.pid then some { r with tail := none } else none)
+    (by intro t r' h; split at h <;> simp at h; subst h; exact ⟨hwf', by simp_all⟩) true (Or.inl rfl)
   have hs : sortTids xcfg [r.pid] = [r.pid] := by simp [sortTids]
-  have hf : threadsCall cfg xcfg tck [r.pid] (fun _ => fileOf (some r)) true
-      = threadsCall cfg xcfg tck [r.pid] (fun t => fileOf (if t = r.pid then some r else none)) true := by
+  have hf : threadsCall cfg xcfg tck [r.pid] (fun _ => fileOf (some { r with tail := none })) true
+      = threadsCall cfg xcfg tck [r.pid] (fun t => fileOf (if t = r.pid then some { r with tail := none } else none)) true := by
     simp [threadsCall, hs]
   rw [hf, h, hs]
   simp [Spec.threadsValue, toOut, threadView]
@@ -683,6 +870,6 @@ example : ∃ r : StatusRec, r.pre ≠ [] ∧ r.WF ∧ r.WFCtx := by
 example : uids cfg (renderStatus (witnessStatus nameUid)) = .ok (1234, 1234, 1234) :=
   C06_status_extract.1 _ (witnessStatus_wf _)
 example : threads cfg 100 [(7, renderStat witnessThread)] = .ok [⟨7, (300 : Nat) / (100 : Nat), (400 : Nat) / (100 : Nat)⟩] :=
-  C06_threads_exact 100 [witnessThread] (by intro r hr; simp at hr; subst hr; exact witnessThread_wf)
+  C06_threads_exact 100 (by decide) [witnessThread] (by intro r hr; simp at hr; subst hr; exact witnessThread_wf)
 
 end Psutil.C06
